@@ -46,7 +46,7 @@ func (x *Exec) mkVal(term string, t types.Type) Val {
 func (x *Exec) ptrFromRoot(root string, elem types.Type) *Pointer {
 	ss := x.P.ss
 	if a, ok := elem.Underlying().(*types.Array); ok {
-		return &Pointer{Heap: ss.heapKey(a.Elem(), true), Rows: true, Elem: a.Elem(), Root: root, Idx: "0", ArrLen: a.Len()}
+		return &Pointer{Heap: ss.heapKey(a.Elem(), true), Rows: true, Elem: a.Elem(), Root: root, Idx: "0", ArrLen: a.Len(), IsArr: true}
 	}
 	if ss.kindOf(elem) == KOpaque {
 		if _, isStruct := elem.Underlying().(*types.Struct); isStruct || true {
@@ -115,7 +115,7 @@ func pathType(t types.Type, path []int) types.Type {
 
 func (x *Exec) load(st *State, p *Pointer) Val {
 	ss := x.P.ss
-	if p.ArrLen > 0 && len(p.Path) == 0 {
+	if p.IsArr && len(p.Path) == 0 {
 		bail("load of whole array value")
 	}
 	if p.Local != nil && len(p.Path) == 0 {
